@@ -52,6 +52,7 @@ type c10Pan struct {
 type c10Act struct {
 	defers [][]c10Stmt
 	rec    *c10Pan // panic a direct recover() in this activation may stop (nil: none)
+	left   bool    // a catch block of this activation was left by break / continue (coverage only)
 }
 
 type c10Ref struct {
@@ -69,6 +70,9 @@ type c10Ref struct {
 	caught         int
 	maxDepth       int
 	depth          int
+	// coverage only: catch blocks left by break/continue, and errors caught later in the same activation
+	catchLeft       int
+	caughtAfterLeft int
 }
 
 func (m *c10Ref) block(b []c10Stmt, a *c10Act) c10Sig {
@@ -101,7 +105,17 @@ func (m *c10Ref) stmt(s *c10Stmt, a *c10Act) c10Sig {
 		if sg == c10Error {
 			m.caught++
 
-			return m.block(s.B, a)
+			if a.left {
+				m.caughtAfterLeft++
+			}
+
+			cs := m.block(s.B, a)
+			if cs == c10Break || cs == c10Continue {
+				m.catchLeft++
+				a.left = true
+			}
+
+			return cs
 		}
 
 		return sg
